@@ -168,6 +168,24 @@ def cases(tier, seed):
     ]
     for t in multi:
         add(t, RHS_BASIC + [["col2", C8]], "m:")
+    # rule-less wide operators (8 * rows < cols): LinearOperator.to_dense multiplies the identity from the LEFT, i.e. densification goes
+    # through __rmatmul__ / _rmatmat of the kind (Dense / Kronecker / BlockDiag / Diagonal have their own to_dense and never get here)
+    wide = [
+        ["product", ["dense", 1, 2, F8], ["dense", 2, 9, F8]],
+        ["product", ["dense", 1, 3, C8], ["diag", 3, F8], ["dense", 3, 9, F8]],
+        ["sum", ["dense", 1, 9, F8], ["dense", 1, 9, C8]],
+        ["transpose", ["dense", 9, 1, F8]],
+        ["adjoint", ["dense", 9, 1, C16]],
+        ["sliced", ["dense", 2, 9, F8], ["s", 1, None, None], ["s", None, None, None]],
+        ["sliced", ["kron", ["dense", 1, 3, F8], ["dense", 2, 3, F8]], ["i", [1]], ["s", None, None, None]],
+        ["concat", [["dense", 1, 4, F8], ["dense", 1, 5, F8]], 1],
+        ["generic", ["dense", 1, 9, F8]],
+        ["nodispatch", ["dense", 1, 9, F4]],
+        ["product", ["dense", 2, 2, F8], ["dense", 2, 17, F8]],
+        ["sum", ["kron", ["dense", 1, 3, F8], ["dense", 1, 3, F8]], ["dense", 1, 9, F8]],
+    ]
+    for t in wide:
+        add(t, RHS_BASIC, "w:")
     # depth 2: composites of depth-1 composites (seed-rotated sample in quick, all in thorough)
     pool2 = [["kron", ["dense", 2, 1, F8], ["dense", 1, 2, F8]], ["product", ["dense", 2, 3, F8], ["dense", 3, 2, F8]],
              ["sum", ["dense", 2, 2, F8], ["diag", 2, F8]], ["blockdiag", [["dense", 1, 1, F8]], [2]],
